@@ -10,6 +10,7 @@ import (
 	"strings"
 
 	"github.com/jf-tech/omniparser"
+	"github.com/jf-tech/omniparser/extensions/omniv21/fileformat"
 	"github.com/jf-tech/omniparser/idr"
 	"github.com/jf-tech/omniparser/transformctx"
 
@@ -448,8 +449,49 @@ func c12E2(schemaText, item, input string) (sig, detail string) {
 	if res != "" {
 		return "E2:unsound-tree:" + item, fmt.Sprintf("%s\nschema %s input %q", res, item, input)
 	}
+	// the same input through the bare FormatReader whose caller never calls Release: the next Read
+	// has to clean up, and what it hands out must be sound all the same
+	mk := c12Factories[schemaText]
+	if mk == nil {
+		var err error
+		if mk, err = hx.FormatReaderFactory(schemaText); err != nil {
+			return "", ""
+		}
+		c12Factories[schemaText] = mk
+	}
+	idr.VerifResetNodePool()
+	pv, site = core.Safe(func() {
+		r, err := mk(input)
+		if err != nil {
+			return
+		}
+		for i := 0; i < 4*len(input)+16; i++ {
+			n, err := r.Read()
+			if err != nil {
+				if r.IsContinuableError(err) {
+					continue
+				}
+				return
+			}
+			if e := auditTree(n); e != "" {
+				res = fmt.Sprintf("reader without Release, record %d: %s", i, e)
+				return
+			}
+		}
+	})
+	if pv != nil {
+		if dp, ok := pv.(vsync.DoublePut); ok {
+			return "E2:node-released-twice:" + item, fmt.Sprintf("reader without Release: %v @ %s\ninput %q", dp, site, input)
+		}
+		return "", ""
+	}
+	if res != "" {
+		return "E2:unsound-tree:" + item, fmt.Sprintf("%s\nschema %s input %q", res, item, input)
+	}
 	return "", ""
 }
+
+var c12Factories = map[string]func(string) (fileformat.FormatReader, error){}
 
 func init() {
 	core.Register(&core.Prop{
